@@ -318,7 +318,10 @@ def source_of(c):
     texts = []
     for i, o in enumerate(c["ops"]):
         t = op_text(o)
-        if via == "def" and o["k"] == "r":
+        if via == "defdseg" and o["k"] == "r":
+            lines += [".def Reg%c = r%d" % ("AB"[i % 2], 16 + (o["n"] + 5) % 16), ".dseg", ".undef reg%c" % "ab"[i % 2], ".def Reg%c = r%d" % ("AB"[i % 2], o["n"]), ".cseg"]
+            t = "reg%c" % "ab"[i % 2]
+        elif via == "def" and o["k"] == "r":
             lines.append(".def Reg%c = r%d" % ("AB"[i % 2], o["n"]))
             t = ("reg%c", "REG%c", "Reg%c", "rEg%c")[(o["n"] + i) % 4] % "ab"[i % 2]        # aliases are matched without regard to case
         elif via == "equ" and o["k"] == "e":
@@ -326,6 +329,16 @@ def source_of(c):
             t = "VAL%d" % i
         elif via == "equlate" and o["k"] == "e":
             t = "vAl%d" % i
+        elif via in ("set", "setdseg", "seteseg") and o["k"] == "e":
+            # a variable that had another (valid-looking) value first; the value in force is the one assigned last,
+            # in whatever segment the assignment stands
+            lines.append(".set Var%d = 1" % i)
+            if via != "set":
+                lines.append(".dseg" if via == "setdseg" else ".eseg")
+            lines.append(".set var%d = %s" % (i, t))
+            if via != "set":
+                lines.append(".cseg")
+            t = "VAR%d" % i
         elif via == "chr" and o["k"] == "e" and not o.get("lit") and chr_ok(o["v"]):
             t = "'%s'" % chr(o["v"])
         elif via == "expr" and o["k"] == "e" and not o.get("lit"):
@@ -351,10 +364,14 @@ def spelling_variants(cases):
         rel = c["addr"] != 0
         if regs and (i % 3 == 0 or any(o["n"] < 16 for o in regs) and i % 2 == 0):
             out.append(dict(c, via="def"))
+        if regs and i % 11 == 5:
+            out.append(dict(c, via="defdseg"))
         if es and not rel and i % 5 == 1:
             out.append(dict(c, via="equ"))
         if es and not rel and i % 7 == 2:
             out.append(dict(c, via="equlate"))
+        if es and not rel and i % 9 == 3:
+            out.append(dict(c, via=("set", "setdseg", "seteseg")[(i // 9) % 3]))
         if es and any(chr_ok(o["v"]) for o in es) and (i % 4 == 3 or any(o["v"] > 0x7e for o in es)):
             out.append(dict(c, via="chr"))
         if es and not rel and i % 6 == 4 and all(abs(o["v"]) < (1 << 29) for o in es):
@@ -473,6 +490,9 @@ def check(prop, tier, seed):
         nplain = len(cases)
         if prop in ("C04", "C01"):
             cases += spelling_variants(cases)
+        elif prop == "C13":
+            # registers through .def aliases: the device's form of the instruction is chosen all the same
+            cases += [v_ for v_ in spelling_variants(cases) if v_["via"] in ("def", "defdseg")]
         jobs = [{"k": "str", "id": i, "src": source_of(c)} for i, c in enumerate(cases)]
         res = run_jobs(jobs)
         events = [to_event(c, res[i], devices) for i, c in enumerate(cases)]
@@ -545,7 +565,7 @@ def check(prop, tier, seed):
             "traces_validated_against_impl": len(events),
             "evaluations": len(events), "distinct_nontrivial": nontrivial,
             "rule": "one build_str per (mnemonic, operand tuple, device, address) enumerated from the tables exported by "
-                    "AvrIsa.tla; a rotating share of them once more with the operands written through .def aliases, .equ symbols (defined before / after), "
+                    "AvrIsa.tla; a rotating share of them once more with the operands written through .def aliases (also rebound inside .dseg), .equ symbols (defined before / after), .set variables (also reassigned inside .dseg / .eseg), "
                     "character constants and computed expressions; distinct = distinct (mnemonic, operands, device, spelling); non-trivial = every case (each has at least a mnemonic)",
             "plain_cases": nplain, "spelling_variants": _via_count(cases),
             "mnemonics_covered": len(per_mn), "mnemonics_in_spec": len(table["mnemonics"]),
